@@ -8,6 +8,7 @@ import (
 	"fmt"
 	"math/rand"
 	"os"
+	"path/filepath"
 	"sort"
 
 	clconfig "github.com/metrico/cloki-config"
@@ -32,10 +33,14 @@ type Case struct {
 	Env    []KV    `json:"env"`
 	File   AuthCfg `json:"file"`   // the configuration as a file left it
 	Preset bool    `json:"preset"` // the file listed a database (portCHEnv then ignores the environment)
+	// ViaFile: File is written as a JSON configuration file and read the way main does it (clconfig.New with the path,
+	// ReadConfig: viper + mapstructure of the cloki-config module) instead of being assigned to the fields
+	ViaFile bool `json:"via_file,omitempty"`
 	// observations
 	Err   bool    `json:"err"`
 	Panic string  `json:"panic,omitempty"`
 	Out   AuthCfg `json:"out"`
+	Read  *AuthCfg `json:"read,omitempty"` // via_file: what ReadConfig left in the fields, before portEnv
 }
 
 var vars = []string{"CLICKHOUSE_DB", "CLUSTER_NAME", "CLICKHOUSE_SERVER", "CLICKHOUSE_PORT", "CLICKHOUSE_AUTH",
@@ -54,12 +59,35 @@ func runCase(c *Case) {
 	for _, kv := range c.Env {
 		os.Setenv(kv.K, kv.V)
 	}
-	cfg := clconfig.New(clconfig.CLOKI_READER, nil, "", "")
-	cfg.Setting.AUTH_SETTINGS.BASIC.Username = c.File.User
-	cfg.Setting.AUTH_SETTINGS.BASIC.Password = c.File.Pass
-	cfg.Setting.HTTP_SETTINGS.Cors.Enable = c.File.Cors
-	cfg.Setting.HTTP_SETTINGS.Cors.Origin = c.File.Origin
-	cfg.Setting.SYSTEM_SETTINGS.Mode = c.File.Mode
+	var cfg *clconfig.ClokiConfig
+	if c.ViaFile {
+		doc := map[string]any{
+			"auth_settings":   map[string]any{"basic": map[string]any{"username": c.File.User, "password": c.File.Pass}},
+			"http_settings":   map[string]any{"cors": map[string]any{"enable": c.File.Cors, "origin": c.File.Origin}},
+			"system_settings": map[string]any{"mode": c.File.Mode},
+		}
+		b, _ := json.Marshal(doc)
+		path := filepath.Join(os.TempDir(), fmt.Sprintf("verif-authenv-%d.json", os.Getpid()))
+		if err := os.WriteFile(path, b, 0o600); err != nil {
+			c.Panic = "cannot write the configuration file: " + err.Error()
+			return
+		}
+		defer os.Remove(path)
+		stdout := os.Stdout // ReadConfig prints
+		os.Stdout, _ = os.Open(os.DevNull)
+		cfg = clconfig.New(clconfig.CLOKI_READER, []string{path}, "", "")
+		cfg.ReadConfig()
+		os.Stdout = stdout
+		c.Read = &AuthCfg{cfg.Setting.AUTH_SETTINGS.BASIC.Username, cfg.Setting.AUTH_SETTINGS.BASIC.Password,
+			cfg.Setting.HTTP_SETTINGS.Cors.Enable, cfg.Setting.HTTP_SETTINGS.Cors.Origin, cfg.Setting.SYSTEM_SETTINGS.Mode}
+	} else {
+		cfg = clconfig.New(clconfig.CLOKI_READER, nil, "", "")
+		cfg.Setting.AUTH_SETTINGS.BASIC.Username = c.File.User
+		cfg.Setting.AUTH_SETTINGS.BASIC.Password = c.File.Pass
+		cfg.Setting.HTTP_SETTINGS.Cors.Enable = c.File.Cors
+		cfg.Setting.HTTP_SETTINGS.Cors.Origin = c.File.Origin
+		cfg.Setting.SYSTEM_SETTINGS.Mode = c.File.Mode
+	}
 	if c.Preset {
 		cfg.Setting.DATABASE_DATA = []config.ClokiBaseDataBase{{Name: "qryn", Host: "localhost", Port: 9000, TTLDays: 7}}
 	}
@@ -78,6 +106,11 @@ func runCase(c *Case) {
 }
 
 var texts = []string{"admin", "s3cr:et", "a", " ", "user name", "pässword", "x\"y", "0"}
+// credentials as a configuration file may spell them: blanks around and inside, quotes, backslashes, colon, non-ASCII,
+// texts that look like other JSON types, a long one
+var fileTexts = []string{"", "admin", "s3cr:et", " ", " lead", "trail ", "  both  ", "user name", "pässword", "x\"y", "'quoted'",
+	"\"dq\"", "back\\slash", "tab\there", "line\nbreak", "0", "true", "null", "1e3", "${HOME}", "%20", "a,b", "[x]", "{y}",
+	"0123456789012345678901234567890123456789012345678901234567890123456789"}
 var ints = []string{"3100", "0", "-1", "+8080", "31oo", "", " 80", "1_000", "9223372036854775807", "9223372036854775808",
 	"4611686018427387903", "4611686018427387904", "-4611686018427387904", "-4611686018427387905", "100", "1e3"}
 var modes = []string{"all", "writer", "reader", "init_only", "", "ALL", "Writer", "bogus"}
@@ -129,6 +162,13 @@ func gen(r *rand.Rand, id int) Case {
 			Cors: r.Intn(3) == 0, Origin: pick(r, []string{"", "https://file.example"}), Mode: pick(r, modes)}
 	}
 	c.Preset = r.Intn(6) == 0
+	if r.Intn(5) == 0 { // a real configuration file, read the way main reads it
+		c.Class = "env+real-file"
+		c.Preset = false
+		c.ViaFile = true
+		c.File = AuthCfg{User: pick(r, fileTexts), Pass: pick(r, fileTexts), Cors: r.Intn(3) == 0,
+			Origin: pick(r, []string{"", "https://file.example", "*"}), Mode: pick(r, modes)}
+	}
 	return c
 }
 
